@@ -156,7 +156,39 @@ fn main() {
       check_multiset(&data, &rps, &mut st);
       multisets += 1;
    }
-   println!("{{\"inputs\":{},\"exhaustive_inputs\":{},\"calls\":{},\"violations\":{}}}", multisets, exhaustive, st.calls, st.viol.len());
+   // rank sweep: distinct values, every size 0..=maxn, every p that is a multiple of 0.25 in [0, 100] (exactly representable,
+   // so the prescribed rank floor(n * p / 100) is computed exactly with integers)
+   let maxn = arg("rank_sweep_n", 200) as usize;
+   let mut sweep = 0u64;
+   for n in 0..=maxn {
+      let mut data: Vec<i32> = (0..n as i32).map(|x| x * 10).collect();
+      // a fixed shuffle
+      for i in (1..data.len()).rev() {
+         let j = rng.below(i + 1);
+         data.swap(i, j);
+      }
+      for q in 0..=400u64 {
+         let p = q as f64 / 4.0;
+         st.calls += 1;
+         sweep += 1;
+         match catch_unwind(AssertUnwindSafe(|| percentile(p)(data.iter().map(|x| (x,))).collect::<Vec<i32>>())) {
+            Err(e) => st.fail("percentile_panics", format!("n={} p={}: {}", n, p, panic_message(e))),
+            Ok(v) => {
+               if n == 0 {
+                  if !v.is_empty() {
+                     st.fail("percentile", format!("empty input p={} yields {:?}", p, v));
+                  }
+               } else {
+                  let idx = ((n as u64 * q) / 400).min(n as u64 - 1) as i32;
+                  if v != vec![idx * 10] {
+                     st.fail("percentile_rank", format!("n={} (values 0,10,..) p={} got={:?} want the element of rank {} = {}", n, p, v, idx, idx * 10));
+                  }
+               }
+            },
+         }
+      }
+   }
+   println!("{{\"inputs\":{},\"exhaustive_inputs\":{},\"percentile_rank_sweep\":{},\"calls\":{},\"violations\":{}}}", multisets, exhaustive, sweep, st.calls, st.viol.len());
    for (l, w) in &st.viol {
       println!("{{\"violation\":true,\"what\":\"{}\",\"witness\":\"{}\"}}", l, json_escape(w));
    }
